@@ -582,10 +582,26 @@ def check_C12(v, tier, seed):
     runs = [Run("C12-mkdir_all", ["root", "--ops", "mkdir_all", "--seed", str(seed), "--n", str(n)]),
             Run("C12-mkdir_all-enosys", ["root", "--ops", "mkdir_all", "--seed", str(seed + 7919), "--n", str(max(n // 3, 100)), "--no-openat2"])]
     concrete = run_oracle_cases(v, runs, oracle_effect, "mkdir_all did not create exactly the missing directories")
+    # an independent expectation for success/failure: the same call on the other backend (the kernel's own in-root
+    # resolution decides what exists); a mkdir_all that fails where it has to create is caught here with its input
+    pairs = 0
+    for r in runs[:1]:
+        for k, e in pair_backends(r):
+            pairs += 1
+            msg = oracle_backends_agree(k, e)
+            if msg:
+                facts = case_facts(e)
+                facts["kind"] = "oracle"
+                facts["oracle"] = msg
+                v.fail(facts, {"why": "mkdir_all: the two backends disagree about the same tree and path: " + msg,
+                               "case": {"kernel_backend": k.raw, "emulated_backend": e.raw}})
+                concrete.add((r.name, k.id))
+                concrete.add((r.name, e.id))
     broken = generic_tie(v, runs, concrete)
     cov = coverage_of(runs)
     cov["tie_mismatches"] = broken
     cov["effect_verdicts"] = effect_stats(runs)
+    cov["backend_pairs_compared"] = pairs
     cov.update(race_suite(v, "C12", "mkdir_all", tier, seed))
     strace_tie_step(v, "C12", [["root", "--ops", "mkdir_all", "--seed", str(seed + 53), "--n", str(sizes(tier, 150, 2000))]], cov)
     return cov
